@@ -1,105 +1,221 @@
-"""Which rules decide which property (DESIGN.md section 3)."""
+"""Which rules decide which property (DESIGN.md section 3).
+
+A rule function may serve several properties; `rep.keep(...)` restricts what is
+recorded to the rule ids that are necessary conditions of the property at hand."""
 from . import tables as T
 from .rules import callrules as C
+from .rules import effects, listdict, simrules as S, rows as R, handlers as H
+from .rules import gillespie as G, misc as M, ode as O, extra as X
+
+
+def c01(repo, rep):
+    G.rate_consistency_sir_sis(repo, rep, "Gillespie_SIR")
+    G.r11_sir_sis(repo, rep, "Gillespie_SIR")
+    G.rate_functions_rule(repo, rep)
+    listdict.r12(repo, rep)
+    X.markov_helper(repo, rep)
+    C.r1(repo, rep, callers=T.SIR_EVENT + ["Gillespie_SIR"])
+    S.r13(repo, rep)
+    H.role_rule(repo, rep, "_process_trans_SIR_", resched_required=False)
+    H.sir_guards(repo, rep)
+    H.proto_rule(repo, rep, ["fast_SIR", "fast_nonMarkov_SIR"])
+    H.adapter_rule(repo, rep)
+    with rep.keep("R9"):
+        R.r9_gillespie(repo, rep, "Gillespie_SIR")
+        R.r9_event_driven(repo, rep, "fast_nonMarkov_SIR")
+    S.r17(repo, rep, funcs=T.SIR_EVENT + ["Gillespie_SIR"])
+    with rep.keep("R10d"):
+        M.r10(repo, rep)
+
+
+def c02(repo, rep):
+    G.rate_consistency_sir_sis(repo, rep, "Gillespie_SIS")
+    G.r11_sir_sis(repo, rep, "Gillespie_SIS")
+    G.rate_functions_rule(repo, rep)
+    listdict.r12(repo, rep)
+    C.r1(repo, rep, callers=T.SIS_EVENT + ["Gillespie_SIS"])
+    S.r13(repo, rep)
+    H.role_rule(repo, rep, "_process_trans_SIS_Markov", resched_required=True)
+    H.sis_markov_guards(repo, rep)
+    with rep.keep("R9"):
+        R.r9_gillespie(repo, rep, "Gillespie_SIS")
+        R.r9_event_driven(repo, rep, "fast_SIS")
+    S.r17(repo, rep, funcs=T.SIS_EVENT + ["Gillespie_SIS"])
+
+
+def c03(repo, rep):
+    G.simple_contagion_rule(repo, rep)
+    listdict.r12(repo, rep)
+    with rep.keep("R9"):
+        R.r9_generic(repo, rep, "Gillespie_simple_contagion")
+    S.r17(repo, rep, funcs=["Gillespie_simple_contagion"])
+    C.r1(repo, rep, callers=["Gillespie_simple_contagion"])
+
+
+def c04(repo, rep):
+    with rep.keep("R9", "R9.C04"):
+        for n in ("Gillespie_SIR", "Gillespie_SIS"):
+            R.r9_gillespie(repo, rep, n)
+        for n in ("fast_nonMarkov_SIR", "fast_SIS", "fast_nonMarkov_SIS"):
+            R.r9_event_driven(repo, rep, n)
+        for n in ("Gillespie_simple_contagion", "Gillespie_complex_contagion"):
+            R.r9_generic(repo, rep, n)
+        R.r9_discrete(repo, rep)
+    S.r13(repo, rep)
+    S.r17(repo, rep)
+    O.r2r3(repo, rep, ["simulation"])
+    C.r1(repo, rep, callers=["fast_SIR", "basic_discrete_SIR", "percolation_based_discrete_SIR"])
 
 
 def c05(repo, rep):
-    C.r1(repo, rep, callers=T.SIMULATORS + ["fast_SIR"])
-    C.r16(repo, rep, T.SIMULATORS)
-
-
-PROPS = {"C05": c05}
-
-
-def c19(repo, rep):
-    from .rules import effects
-    effects.r5(repo, rep)
-
-PROPS["C19"] = c19
-
-
-def c16(repo, rep):
-    from .rules import listdict
-    listdict.r12(repo, rep)
-
-PROPS["C16"] = c16
-
-
-def c18(repo, rep):
-    from .rules import simrules as S
-    S.r7a(repo, rep)
-    S.r7b(repo, rep)
-    S.r7c(repo, rep)
-
-PROPS["C18"] = c18
-
-
-def _c04_tmp(repo, rep):
-    from .rules import simrules as S
-    S.r13(repo, rep)
-    S.r17(repo, rep)
-
-PROPS["C04"] = _c04_tmp
-
-
-def _rows(repo, rep):
-    from .rules import rows as R
-    for n in ("Gillespie_SIR", "Gillespie_SIS"):
-        R.r9_gillespie(repo, rep, n)
-    for n in ("fast_nonMarkov_SIR", "fast_SIS", "fast_nonMarkov_SIS"):
-        R.r9_event_driven(repo, rep, n)
-    for n in ("Gillespie_simple_contagion", "Gillespie_complex_contagion"):
-        R.r9_generic(repo, rep, n)
-    R.r9_discrete(repo, rep)
-
-PROPS["C04"] = lambda repo, rep: (_c04_tmp(repo, rep), _rows(repo, rep))
-
-
-def _handlers(repo, rep):
-    from .rules import handlers as H
-    H.role_rule(repo, rep, "_process_trans_SIR_", resched_required=False)
-    H.role_rule(repo, rep, "_process_trans_SIS_Markov", resched_required=True)
-    H.role_rule(repo, rep, "_process_trans_SIS_nonMarkov_", resched_required=True)
-    H.sir_guards(repo, rep)
-    H.sis_markov_guards(repo, rep)
-    H.sis_nonmarkov_rules(repo, rep)
-    H.proto_rule(repo, rep, ["fast_SIR", "fast_nonMarkov_SIR", "fast_nonMarkov_SIS", "directed_percolate_network"])
-    H.adapter_rule(repo, rep)
-
-PROPS["C11"] = _handlers
-
-
-def _gill(repo, rep):
-    from .rules import gillespie as G
-    for n in ("Gillespie_SIR", "Gillespie_SIS"):
-        G.r11_sir_sis(repo, rep, n)
-        G.rate_consistency_sir_sis(repo, rep, n)
-    G.rate_functions_rule(repo, rep)
-    G.simple_contagion_rule(repo, rep)
-    G.complex_contagion_rule(repo, rep)
-
-PROPS["C03"] = _gill
-
-
-def _misc(repo, rep):
-    from .rules import misc as M
     M.r10(repo, rep)
-    M.transform_history_rule(repo, rep)
-    M.r14(repo, rep)
-    M.r15(repo, rep)
-    M.subsample_rule(repo, rep)
-    M.investigation_rule(repo, rep)
+    with rep.keep("HIST"):
+        M.transform_history_rule(repo, rep)
+    C.r1(repo, rep, callers=T.SIMULATORS)
+    C.r16(repo, rep, T.SIMULATORS)
+    X.r16w(repo, rep, ["simulation"])
+    with rep.keep("R9.C04"):
+        for n in ("Gillespie_SIR", "Gillespie_SIS"):
+            R.r9_gillespie(repo, rep, n)
+        for n in ("fast_nonMarkov_SIR", "fast_SIS", "fast_nonMarkov_SIS"):
+            R.r9_event_driven(repo, rep, n)
+        R.r9_discrete(repo, rep)
 
-PROPS["C20"] = _misc
 
-
-def _ode(repo, rep):
-    from .rules import ode as O
+def c06(repo, rep):
     O.r2r3(repo, rep, ["analytic"])
     O.time_grid(repo, rep)
     O.conservation(repo, rep)
     O.r4(repo, rep)
+    O.degree_roles(repo, rep)
+    analytic = [f.name for f in repo.public_functions("analytic")]
+    C.r1(repo, rep, callers=analytic + ["_get_Nk_and_IC_as_arrays_", "_get_NkNl_and_IC_as_arrays_", "_count_edge_types_",
+                                        "_initialize_node_status_"], floor_sites=60)
+    C.r16(repo, rep, [n for n in analytic if n not in O.NOTE_ONLY])
+    X.r16w(repo, rep, ["analytic"])
+
+
+def c09(repo, rep):
+    C.r8(repo, rep, [n for n in T.SIMULATORS if n not in ("fast_SIR", "basic_discrete_SIR", "percolation_based_discrete_SIR",
+                                                           "Gillespie_complex_contagion")])
+    with rep.keep("R9.C09", "R9"):
+        for n in ("Gillespie_SIR", "Gillespie_SIS"):
+            R.r9_gillespie(repo, rep, n)
+        for n in ("fast_nonMarkov_SIR", "fast_SIS", "fast_nonMarkov_SIS"):
+            R.r9_event_driven(repo, rep, n)
+    for h in ("_process_trans_SIR_", "_process_trans_SIS_Markov", "_process_trans_SIS_nonMarkov_"):
+        H.role_rule(repo, rep, h, resched_required=(h != "_process_trans_SIR_"))
+    with rep.keep("H-guard"):
+        H.sir_guards(repo, rep)
+        H.sis_markov_guards(repo, rep)
+    with rep.keep("R11s.C09", "R11s"):
+        G.simple_contagion_rule(repo, rep)
+    with rep.keep("R11"):
+        G.r11_sir_sis(repo, rep, "Gillespie_SIR")
+        G.r11_sir_sis(repo, rep, "Gillespie_SIS")
+    with rep.keep("DISC"):
+        X.discrete_contacts(repo, rep)
+    with rep.keep("INV"):
+        M.investigation_rule(repo, rep)
+    C.r1(repo, rep, callers=T.SIR_EVENT + T.SIS_EVENT + T.SIS_NONMARKOV)
+
+
+def c10(repo, rep):
+    S.r7c(repo, rep)
+    C.r8(repo, rep, [n for n in T.SIMULATORS if n not in ("fast_SIR", "basic_discrete_SIR", "percolation_based_discrete_SIR")])
+    with rep.keep("R9.C10", "R9"):
+        for n in ("Gillespie_SIR", "Gillespie_SIS"):
+            R.r9_gillespie(repo, rep, n)
+        for n in ("fast_nonMarkov_SIR", "fast_SIS", "fast_nonMarkov_SIS"):
+            R.r9_event_driven(repo, rep, n)
+        for n in ("Gillespie_simple_contagion", "Gillespie_complex_contagion"):
+            R.r9_generic(repo, rep, n)
+    M.transform_history_rule(repo, rep)
+    M.investigation_rule(repo, rep)
+    with rep.keep("R10e", "R10c"):
+        M.r10(repo, rep)
+    M.full_data_handoff(repo, rep)
+
+
+def c11(repo, rep):
+    S.r13(repo, rep)
+    H.role_rule(repo, rep, "_process_trans_SIR_", resched_required=False)
+    H.sir_guards(repo, rep)
+    H.proto_rule(repo, rep, ["fast_SIR", "fast_nonMarkov_SIR", "directed_percolate_network"])
+    H.adapter_rule(repo, rep)
+    M.r14(repo, rep)
+    C.r1(repo, rep, callers=T.SIR_EVENT + T.PERCOLATION)
+    with rep.keep("R9"):
+        R.r9_event_driven(repo, rep, "fast_nonMarkov_SIR")
+    with rep.keep("R10d", "R10e"):
+        M.r10(repo, rep)
+    M.full_data_handoff(repo, rep)
+
+
+def c12(repo, rep):
+    C.r1(repo, rep, callers=T.DISCRETE)
+    X.discrete_contacts(repo, rep)
+    with rep.keep("R9", "R9.C04"):
+        R.r9_discrete(repo, rep)
+    with rep.keep("R14"):
+        M.r14(repo, rep)
+    X.r16w(repo, rep, ["simulation"])
+    with rep.keep("R10d", "R10c"):
+        M.r10(repo, rep)
+
+
+def c13(repo, rep):
+    S.r13(repo, rep)
+    H.role_rule(repo, rep, "_process_trans_SIS_nonMarkov_", resched_required=True)
+    H.sis_nonmarkov_rules(repo, rep)
+    H.proto_rule(repo, rep, ["fast_nonMarkov_SIS"])
+    H.adapter_rule(repo, rep)
+    C.r1(repo, rep, callers=T.SIS_NONMARKOV)
+    with rep.keep("R9"):
+        R.r9_event_driven(repo, rep, "fast_nonMarkov_SIS")
+
+
+def c14(repo, rep):
     O.r6(repo, rep)
     O.degree_roles(repo, rep)
+    analytic = [f.name for f in repo.public_functions("analytic")]
+    with rep.keep("R1c", "R1b", "R1a"):
+        C.r1(repo, rep, callers=analytic)
 
-PROPS["C06"] = _ode
+
+def c15(repo, rep):
+    G.complex_contagion_rule(repo, rep)
+    listdict.r12(repo, rep)
+    with rep.keep("R9"):
+        R.r9_generic(repo, rep, "Gillespie_complex_contagion")
+
+
+def c16(repo, rep):
+    listdict.r12(repo, rep)
+
+
+def c17(repo, rep):
+    M.r14(repo, rep)
+    C.r1(repo, rep, callers=T.PERCOLATION)
+    H.proto_rule(repo, rep, ["directed_percolate_network"])
+
+
+def c18(repo, rep):
+    S.r7a(repo, rep)
+    S.r7b(repo, rep)
+    S.r7c(repo, rep)
+    M.full_data_handoff(repo, rep)
+
+
+def c19(repo, rep):
+    effects.r5(repo, rep)
+
+
+def c20(repo, rep):
+    M.r15(repo, rep)
+    M.subsample_rule(repo, rep)
+
+
+PROPS = {"C01": c01, "C02": c02, "C03": c03, "C04": c04, "C05": c05, "C06": c06, "C09": c09, "C10": c10,
+         "C11": c11, "C12": c12, "C13": c13, "C14": c14, "C15": c15, "C16": c16, "C17": c17, "C18": c18,
+         "C19": c19, "C20": c20}
